@@ -54,7 +54,7 @@ ALNUM = "ABCDEFGHIJKLMNOPQRSTUVWXYZ0123456789"
 
 
 def str_text(h, w):
-    n = 1 + h % w
+    n = 1 + h % min(w, 40)
     return "".join(ALNUM[(h >> (5 * (i % 10)) ^ i * 7) % 36] for i in range(n))
 
 
